@@ -5,6 +5,7 @@
 import GoluaVerif.Proofs.C13Marshal
 import GoluaVerif.Proofs.C13Total
 import GoluaVerif.Proofs.C13Canon
+import GoluaVerif.Proofs.C13Refactor
 namespace GoluaVerif.Props.C13
 open GoluaVerif GoluaVerif.Model.Marshal
 
@@ -104,5 +105,40 @@ example : unmarshal [6, 0, 4, 4, 3, 0, 0, 0, 0, 0, 0, 0, 97] = .error .eof := by
 theorem unmarshal_total (bs : Bytes) :
     unmarshal bs ≠ .error .fuel ∧ ∀ c r, unmarshal bs = .ok (c, r) → r.length < bs.length :=
   ⟨unmarshal_nofuel bs, unmarshal_consumes bs⟩
+
+/-! ## RefactorCodeConsts (what string.dump does to a function before marshalling it) -/
+
+open GoluaVerif.Model.Refactor GoluaVerif.Generated.Opcode in
+/-- **refactoring preserves what every opcode loads**: `RefactorCodeConsts` (Model.Refactor, over the REGENERATED
+    `TypePfx`, `GetY`, `LoadsK`, `GetKIndex`, `SetKIndex` of code/opcodes.go) keeps the opcode vector position by
+    position; an opcode that does not load a constant is unchanged; an opcode that loads constant `n` of the chunk's
+    shared vector keeps all its bits above the K-operand and its new K-operand designates, in the slimmed-down vector,
+    the same constant — refactored recursively (`conv`) when it is a closure prototype.  For every prototype, every
+    shared vector of any size (indices ≥ 256 included) and every nesting depth. -/
+theorem refactor_preserves_consts (fuel : Nat) (unit : List UConst) (p : Proto) (c : Const)
+    (h : refactor (fuel + 1) unit p = .ok c) :
+    ∃ (ops' : List (BitVec 32)) (ks : List Const), c = .code p.source p.name ops' p.lines ks p.uv p.rc p.cc p.ups ∧ ops'.length = p.ops.length ∧
+      ∀ (i : Nat) (op : BitVec 32), p.ops[i]? = some op →
+        ∃ op', ops'[i]? = some op' ∧ OpOK (refactor fuel unit) unit ks op op' := by
+  unfold refactor at h
+  split at h
+  · exact absurd h (by simp)
+  · rename_i ops' ks hr
+    injection h with h
+    have hm : MapOK (refactor fuel unit) unit [] [] := by intro n m hnm; simp at hnm
+    obtain ⟨_, hlen, hall⟩ := refactorOps_spec _ unit p.ops [] [] ops' ks hr hm
+    exact ⟨ops', ks, h.symm, hlen, hall⟩
+
+open GoluaVerif.Model.Refactor GoluaVerif.Generated.Opcode in
+/-- a non-trivial instance: a prototype that loads constant 300 (a float) and constant 2 (an integer of the same
+    value) of a 301-entry vector keeps both, as constants 0 and 1 -/
+example :
+    let unit : List UConst := (List.replicate 2 (.str [120])) ++ [.int 100000#64] ++ (List.replicate 297 (.str [121])) ++
+      [.float 0x40f86a0000000000#64]
+    let p : Proto := { source := [61], name := [], ops := [LoadConst ⟨0, 0⟩ 300, LoadConst ⟨0, 1⟩ 2], lines := [1, 1],
+                       uv := 0, rc := 2, cc := 0, ups := [] }
+    (match refactor 2 unit p with
+     | .ok (.code _ _ ops _ ks _ _ _ _) => (ops.map Opcode.GetKIndex, ks.length)
+     | _ => ([], 0)) = ([0#16, 1#16], 2) := by decide
 
 end GoluaVerif.Props.C13
